@@ -57,6 +57,31 @@ Theorem C12_cleanup_keeps_live : forall (now : time) (e : entry),
 Proof. exact cleanup_cond_expired. Qed.
 Print Assumptions C12_cleanup_keeps_live.
 
+(* Cleanup composes: a Cleanup at `now` followed by a Cleanup at `now' >= now`
+   leaves exactly the lookups of a single Cleanup at `now'`; in particular a
+   second Cleanup at the same instant changes nothing (idempotence), so the
+   5-minute background Cleanup and a manual one cannot differ in effect. *)
+Theorem C12_cleanup_absorbs : forall (now now' : time) (c : cache),
+  wf c -> now <= now' ->
+  forall k, lookup k (items (cleanup now' (cleanup now c))) = lookup k (items (cleanup now' c)).
+Proof. exact cleanup_absorbs. Qed.
+Print Assumptions C12_cleanup_absorbs.
+
+Theorem C12_cleanup_idempotent : forall (now : time) (c : cache),
+  wf c ->
+  forall k, lookup k (items (cleanup now (cleanup now c))) = lookup k (items (cleanup now c)).
+Proof. exact cleanup_idempotent_lookup. Qed.
+Print Assumptions C12_cleanup_idempotent.
+
+(* non-vacuity: a reachable state with one elapsed and one live entry; the first
+   Cleanup removes the elapsed one, the second changes nothing *)
+Example C12_cleanup_idempotent_nonvacuous :
+  let c := fst (run (empty 4) [(1, OSet 1%N 10 2); (1, OSet 2%N 20 100)]) in
+  map fst (items c) = [1%N; 2%N]
+  /\ map fst (items (cleanup 5 c)) = [2%N]
+  /\ map fst (items (cleanup 5 (cleanup 5 c))) = [2%N].
+Proof. vm_compute. repeat split. Qed.
+
 (* C12_complete is the completeness clause of C12_history read on its own:
    see complete_get in Spec/CacheSpec.v. *)
 Theorem C12_complete : forall (c : cache) (rh : list (time * op)) (t0 now : time) (o : op),
